@@ -514,16 +514,28 @@ func c06Follower(c *Check) {
 			}
 			r := fi.Sym(lit.Fn.Params[0])
 			f := fi.FactsAt(lit.Alloc)
-			okC := f.ImpliesCmp(cm, "<=", FieldOf(FieldOf(r, raftLogF), committedF))
-			okM := false
-			var mt *Sym
-			cm.Walk(func(x *Sym) {
-				if x.K == KField && x.Fld == matchF {
-					mt = x
+			// the value may be a builtin min or a hand-written compare-select (a phi): decide per incoming value
+			edges := []phiEdge{{nil, f}}
+			syms := []*Sym{cm}
+			if cm.K == KPhi {
+				edges, syms = nil, nil
+				for _, pe := range phiEdges(fi, cm.V, lit.Alloc) {
+					edges = append(edges, pe)
+					syms = append(syms, fi.Sym(pe.val))
 				}
-			})
-			if mt != nil {
-				okM = f.ImpliesCmp(cm, "<=", mt)
+			}
+			var mt *Sym
+			for _, sy := range syms {
+				sy.Walk(func(x *Sym) {
+					if x.K == KField && x.Fld == matchF {
+						mt = x
+					}
+				})
+			}
+			okC, okM := len(edges) > 0, mt != nil
+			for i, pe := range edges {
+				okC = okC && pe.facts.ImpliesCmp(syms[i], "<=", FieldOf(FieldOf(r, raftLogF), committedF))
+				okM = okM && pe.facts.ImpliesCmp(syms[i], "<=", mt)
 			}
 			c.Result(okC && (okM || hbClamped), "C06.F2", "MsgHeartbeat.Commit clamp", fnName(lit.Fn), site, "Commit <= min(pr.Match, committed): never beyond what the follower is known to hold", "Commit <- "+cm.Key())
 		case app:
